@@ -351,7 +351,7 @@ def run(ctx, R, tier):
             # and whenever the compressed payload is used, the flag store is passed: compress node -> pack must pass flag store
             ok = scfg.all_paths_pass(cnode, lambda n: n in fnode, edge_ok=no_exc, targets=pack_nodes) and \
                 all(comp[0].value.args and unparse(comp[0].value.args[0]) == pvar for _ in [0])
-            why = "the payload can be replaced by its compressed form without FLAGS_COMPRESSED being set"
+            why = "setting FLAGS_COMPRESSED and sending the zlib.compress output are not tied to the same condition: the flag can be set on an uncompressed payload or a compressed payload can go out without the flag (the receiver then fails to decode the value)"
         clear = [st for st, t, k in stores_in(snd.node) if k == "aug" and isinstance(st.op, ast.BitAnd) and "FLAGS_COMPRESSED" in unparse(st.value)]
         if ok and not (clear and all(scfg.dominates(x, f_) for x in scfg.nodes_for(clear[0]) for f_ in fnode)):
             ok = False
